@@ -36,7 +36,7 @@ def var_real(v):
 
 
 def to_real(case):
-    from dagrt.language import Assign, DAGCode, ExecutionPhase, Nop, SwitchPhase
+    from dagrt.language import Assign, AssignFunctionCall, DAGCode, ExecutionPhase, Nop, SwitchPhase
     phases = {}
     for name, stmts in case:
         real = []
@@ -47,8 +47,16 @@ def to_real(case):
                 real.append(Nop(condition=True, **kw))
             elif kind[0] == "switch":
                 real.append(SwitchPhase(next_phase="p%d" % kind[1], **kw))
-            else:
+            elif sid % 3 == 0:
                 real.append(Assign(assignee=var_real(kind[1]), assignee_subscript=(), expression=1, **kw))
+            elif sid % 3 == 1:
+                # the same write carried out by a function-call statement (one assignee)
+                real.append(AssignFunctionCall(assignees=(var_real(kind[1]),), function_id="<func>g", parameters=(),
+                                               **kw))
+            else:
+                # ... or by one with a second, unrelated assignee
+                real.append(AssignFunctionCall(assignees=(var_real(kind[1]), "v7"), function_id="<func>f",
+                                               parameters=(), **kw))
         phases["p%d" % name] = ExecutionPhase("p%d" % name, "p%d" % name, real)
     initial = "p%d" % case[0][0] if case else "p0"
     return DAGCode(phases=phases, initial_phase=initial)
@@ -91,6 +99,17 @@ def view_to_coq(view):
 
 # ------------------------------------------------------------------ implementation
 
+def fortran_registry():
+    from dagrt.codegen.fortran import CallCode
+    from dagrt.data import Integer
+    from dagrt.function_registry import base_function_registry, register_function
+    freg = register_function(base_function_registry, "<func>f", (), result_names=("r", "q"),
+                             result_kinds=(Integer(), Integer()))
+    freg = freg.register_codegen("<func>f", "fortran", CallCode("\n${r} = 1\n${q} = 1\n"))
+    freg = register_function(freg, "<func>g", (), result_names=("r",), result_kinds=(Integer(),))
+    return freg.register_codegen("<func>g", "fortran", CallCode("\n${r} = 1\n"))
+
+
 def consumers(dag):
     """Run what relies on well-formedness; returns list of (consumer, phase, exception class)."""
     from dagrt.codegen.dag_ast import create_ast_from_phase
@@ -98,7 +117,7 @@ def consumers(dag):
     fails = []
     for name in dag.phases:
         try:
-            it = NumpyInterpreter(dag, {})
+            it = NumpyInterpreter(dag, {"<func>g": lambda: 1, "<func>f": lambda: (1, 1)})
             it.set_up(0, 1, {})
             it.next_phase = name
             for _ in it.run_single_step():
@@ -118,7 +137,7 @@ def consumers(dag):
         fails.append(("python codegen", "", type(ex).__name__))
     try:
         from dagrt.codegen.fortran import CodeGenerator as FortranCodeGenerator
-        FortranCodeGenerator("method", {})(dag)
+        FortranCodeGenerator("method", {}, function_registry=fortran_registry())(dag)
     except BaseException as ex:  # noqa: BLE001
         fails.append(("fortran codegen", "", type(ex).__name__))
     return fails
